@@ -158,4 +158,14 @@ example : cyclesB 3 exScreen = .ok exScreen :=
 example : SpaceOK (Space.ofScreen exScreen) :=
   { tn := by decide, sn := by decide, tne := by decide, sne := by decide }
 
+/-- hand-made mapping tables (rows not sorted by name, ids not numbered in table order) are constructible and are
+    covered by the theorems like any other screen: nothing is re-sorted or renumbered on the way through a file -/
+example : load handMadeScreen.save = .ok handMadeScreen ∧ handMadeScreen.smap = [([122,122], 0), ([115,49], 2), ([115], 1)]
+    ∧ handMadeScreen.sids = [1, 2, 1] :=
+  ⟨C02_load_save handMadeScreen handMadeScreen_valid (by decide) (by decide), rfl, rfl⟩
+
+example : cyclesB 2 handMadeScreen = .ok handMadeScreen :=
+  C02_idempotent_bytes handMadeScreen handMadeScreen_valid
+    { tn := by decide, sn := by decide, pn := by decide, tm := by decide, sm := by decide } (by decide) (by decide) 2
+
 end Batchie.Props.C02
